@@ -42,6 +42,8 @@ def moduleToJson (m : Mod) : Json :=
         ("termination", toJson m.isTerminationModule), ("iterative", toJson m.isIterative),
         ("trans_at", toJson m.isTransAt), ("pks", toJson m.isPks), ("nrps", toJson m.isNrps),
         ("terminated", toJson m.isTerminated), ("coa", toJson m.isCoaLigase),
+        ("start", match m.startPos with | .ok v => toJson v | .error _ => Json.null),
+        ("stop", match m.endPos with | .ok v => toJson v | .error _ => Json.null),
         ("reload", toJson (match ASV.Modules.Module.fromJson m.toJson with | .ok m' => decide (m' = m) | .error _ => false))]
 
 def modulesToJson (ms : List Mod) : Json := jArr (ms.map moduleToJson)
@@ -58,7 +60,9 @@ def specOfModule (m : List Comp × Bool) : Json :=
         ("termination", toJson (Spec.terminationModule m.1)),
         ("iterative", toJson (Spec.iterative m.1)),
         ("trans_at", toJson (Spec.transAt m.1)),
-        ("pks", toJson (Spec.isPks m.1)), ("nrps", toJson (Spec.isNrps m.1))]
+        ("pks", toJson (Spec.isPks m.1)), ("nrps", toJson (Spec.isNrps m.1)),
+        ("start", match Spec.moduleStart m.1 with | some v => toJson v | none => Json.null),
+        ("stop", match Spec.moduleEnd m.1 with | some v => toJson v | none => Json.null)]
 
 def exceptJson (r : Except Err Json) : Json :=
   match r with
